@@ -75,7 +75,7 @@ def _unhex(s: str) -> bytes:
 def record_ops(old, new, workroot: str, prefail: bool = False) -> dict:
     d = tempfile.mkdtemp(prefix="crash-", dir=workroot)
     log = os.path.join(d, "strace.log")
-    env = dict(os.environ, PYTHONPATH=os.pathsep.join([common.VERIF, "/repo/src"]), PYTHONDONTWRITEBYTECODE="1")
+    env = dict(os.environ, PYTHONPATH=os.pathsep.join([common.VERIF, common.REPO_SRC]), PYTHONDONTWRITEBYTECODE="1")
     proc = subprocess.run(["strace", "-f", "--seccomp-bpf", "-e", "trace=" + SYSCALLS, "-xx", "-s", "1000000", "-o", log,
                            sys.executable, "-c", CHILD, d, json.dumps(old), json.dumps(new), "1" if prefail else "0"],
                           env=env, cwd=d, capture_output=True, text=True, timeout=300)
